@@ -294,6 +294,13 @@ def decryptBlocks (c : Crypto.CryptoOps) (img : Bytes) (w : Walk) (nonce mac : B
       | none => .error "AES-CCM tag mismatch: the listed blocks do not decrypt under DEK / nonce / MAC"
     else .ok none
 
+/-- the DEK blob is located directly behind the CSF; a Decrypt Data command needs an Install Secret Key command -/
+def secretOk (secretLoc : Option Nat) (macRef : Option (Nat × Nat)) (csf : Nat) : Bool :=
+  match secretLoc, macRef with
+  | some l, some _ => l == csf + 0x2000
+  | none, some _ => false
+  | _, none => true
+
 /-- the checks after the walk -/
 def finish (c : Crypto.CryptoOps) (img region : Bytes) (v : View) (csfOff hdrLen dcdLen xmcdLen : Nat) (w : Walk)
     (dek : Option Bytes) : R Report :=
@@ -310,10 +317,7 @@ def finish (c : Crypto.CryptoOps) (img region : Bytes) (v : View) (csfOff hdrLen
   chk (nzCov all csfOff 0 img) s!"a non-zero byte before the CSF is in no authenticated / decrypted block {all}" <|
   chk (decide (v.self ≤ v.entry) && inBlocks all (v.entry - v.self)) "entry point not inside an authenticated / decrypted block" <|
   chk (v.blen == ivtOff + img.length + blob) s!"boot data length {v.blen}, real size {ivtOff + img.length} + key blob {blob}" <|
-  chk (match w.secretLoc, w.macRef with
-       | some l, some _ => l == v.csf + 0x2000
-       | none, some _ => false
-       | _, none => true) "DEK blob is not located directly behind the CSF / Decrypt Data without Install Secret Key" <|
+  chk (secretOk w.secretLoc w.macRef v.csf) "DEK blob is not located directly behind the CSF / Decrypt Data without Install Secret Key" <|
   bindE (readMac region w.macRef) fun nm =>
   bindE (decryptBlocks c img w nm.1 nm.2 dek) fun plain =>
   .ok { ivtSelf := v.self, start := v.start, csfOff := csfOff, hdrLen := hdrLen, srk := w.srk, csfCert := w.csfCert,
